@@ -167,6 +167,11 @@ Proof.
     cbn [bind fst snd] in H. injection H as <- _. cbn [wf_fval orb].
     pose proof (rd_len _ _ _ _ _ _ Hl E) as Hlen. pose proof (rd_wf _ _ _ _ _ _ Hm E) as Hw.
     rewrite bytesb_true by assumption. rewrite andb_true_r. apply Nat.leb_le. unfold len in Hlen. lia.
+  - (* FChecked *)
+    destruct (rd m pos lim (lim - pos)) as [[b p]| | |] eqn:E; try discriminate.
+    cbn [bind fst snd] in H. destruct (rest_check k b) eqn:Ec; [discriminate|].
+    injection H as <- _. cbn [wf_fval]. rewrite Ec.
+    pose proof (rd_wf _ _ _ _ _ _ Hm E) as Hw. rewrite bytesb_true by assumption. reflexivity.
 Qed.
 
 Lemma parse_fields_wf s : forall m pos lim v e,
@@ -182,13 +187,23 @@ Proof.
     rewrite (parse_field_wf _ _ _ _ _ _ Hm Hl Ef). eapply IH; eauto.
 Qed.
 
+Lemma parse_rdata_post s m pos lim v :
+  parse_rdata dec s m pos lim = Ok v -> post_ok (s_post s) v = true.
+Proof.
+  intros H. unfold parse_rdata in H.
+  destruct (parse_type dec s m pos lim) as [[v' e]| | |]; try discriminate.
+  cbn [bind fst snd] in H. destruct (e =? lim); [|discriminate].
+  destruct (post_ok (s_post s) v') eqn:Epost; [|discriminate]. injection H as <-. exact Epost.
+Qed.
+
 Lemma parse_rdata_wf s m pos lim v :
   wf_bytes m -> lim <= mlen m ->
   parse_rdata dec s m pos lim = Ok v -> wf_fvals false (s_fields s) v = true.
 Proof.
   intros Hm Hl H. unfold parse_rdata in H.
   destruct (parse_type dec s m pos lim) as [[v' e]| | |] eqn:E; try discriminate.
-  cbn [bind fst snd] in H. destruct (e =? lim); [|discriminate]. injection H as <-.
+  cbn [bind fst snd] in H. destruct (e =? lim); [|discriminate].
+  destruct (post_ok (s_post s) v') eqn:Epost; [|discriminate]. injection H as <-.
   unfold parse_type in E. destruct (s_long s) as [k|].
   - destruct (lim - pos <? k); [discriminate|]. destruct (65535 <? lim - pos - k); [discriminate|].
     eapply parse_fields_wf; eauto.
@@ -210,7 +225,8 @@ Theorem recompose dec dec' s m pos lim v pre post :
 Proof.
   intros Hs Hc Hwf Hm Hl Hp Ht. apply parse_compose; auto.
   unfold wf_value. rewrite (parse_rdata_wf dec Hs s m pos lim v Hm Hl Hp).
-  apply N.leb_le. exact Ht.
+  rewrite (parse_rdata_post dec s m pos lim v Hp).
+  apply N.leb_le in Ht. rewrite Ht. reflexivity.
 Qed.
 
 (* what a constructor accepts is well-formed unless it is over-long or has a
@@ -232,7 +248,8 @@ Theorem ctor_accepts_wf s v :
   wf_value s v = true.
 Proof.
   unfold ctor_accepts, overlong, short_rest, wf_value. intros H Ho Hr.
-  apply andb_true_iff in H as [Hv _]. rewrite (wf_fvals_ctor _ _ Hv Hr).
+  apply andb_true_iff in H as [H Hpost]. apply andb_true_iff in H as [Hv _].
+  rewrite (wf_fvals_ctor _ _ Hv Hr), Hpost.
   apply N.ltb_ge in Ho. apply N.leb_le in Ho. rewrite Ho. reflexivity.
 Qed.
 
@@ -242,5 +259,5 @@ Theorem checked_ctor_accepts_wf s v :
 Proof.
   intros Hc H Hr. apply ctor_accepts_wf; auto.
   unfold ctor_accepts in H. rewrite Hc in H. cbn [negb orb] in H.
-  apply andb_true_iff in H as [_ Ht]. unfold overlong. apply N.ltb_ge. apply N.leb_le in Ht. exact Ht.
+  apply andb_true_iff in H as [H _]. apply andb_true_iff in H as [_ Ht]. unfold overlong. apply N.ltb_ge. apply N.leb_le in Ht. exact Ht.
 Qed.
